@@ -181,6 +181,9 @@ pub mod mtgraph;
 pub mod stream;
 pub mod window;
 
+#[cfg(feature = "verif")]
+pub mod verif;
+
 /// Float type used. Usually f32, but not guaranteed.
 pub type Float = f32;
 
